@@ -212,6 +212,13 @@ func (s *State) setHeap(name, sort, term string) {
 
 // havocAll forgets everything about the heap and mutable globals.
 func (s *State) havocAll() {
+	// ghost heaps before the havoc (read with the old epoch)
+	oldGhost := map[string]string{}
+	for k, srt := range s.vc.heapSort {
+		if strings.HasPrefix(k, "Q:") {
+			oldGhost[k] = s.heap(k, srt)
+		}
+	}
 	s.vc.eng.nfresh++
 	s.epoch = s.vc.eng.nfresh
 	// constant globals keep their value
@@ -221,7 +228,34 @@ func (s *State) havocAll() {
 			nh[k] = v
 		}
 	}
+	// ghost sets only grow: whatever unknown code ran, the members recorded so far are still members
+	for k, srt := range s.vc.heapSort {
+		if !strings.HasPrefix(k, "Q:") {
+			continue
+		}
+		old := oldGhost[k]
+		nw := s.vc.declare(sanitizeSym(k)+"_hv", srt)
+		es := "(Seq Int)"
+		if strings.Contains(srt, "(Array Int Bool)") {
+			es = "Int"
+		}
+		s.assume(fmt.Sprintf("(forall ((o Int) (e %s)) (! (=> (select (select %s o) e) (select (select %s o) e)) :pattern ((select (select %s o) e))))", es, old, nw, nw))
+		nh[k] = nw
+	}
 	s.heaps = nh
+}
+
+// growGhost replaces a ghost-set heap by an unknown superset of it.
+func (s *State) growGhost(name, srt string) {
+	old := s.heap(name, srt)
+	nw := s.vc.declare(sanitizeSym(name)+"_hv", srt)
+	es := "(Seq Int)"
+	if strings.Contains(srt, "(Array Int Bool)") {
+		es = "Int"
+	}
+	s.assume(fmt.Sprintf("(forall ((o Int) (e %s)) (! (=> (select (select %s o) e) (select (select %s o) e)) :pattern ((select (select %s o) e))))", es, old, nw, nw))
+	s.heaps[name] = nw
+	s.vc.heapSort[name] = srt
 }
 
 func (s *State) havocHeap(name, sort string) {
